@@ -339,10 +339,12 @@ type hostileGroup struct {
 }
 
 type tot struct {
-	l      *core.Local
-	st     [2]*station
-	budget uint64
-	ord    int64
+	batches int
+	sample  bool // only worker 0 contributes samples (its shard is fixed, so the samples are the same on every run)
+	l       *core.Local
+	st      [2]*station
+	budget  uint64
+	ord     int64
 }
 
 // judge applies the totality oracle to one (manual, auto) pair of executions; returns a failure kind or "".
@@ -402,6 +404,7 @@ func (t *tot) runGroup(g hostileGroup, col *collector, mine func(idx int) bool, 
 		}
 		delta := totalAlloc() - before
 		t.l.Add("alloc_batches", 1)
+		t.batches++
 		if delta > t.budget {
 			// some request of the batch may be over budget: measure them one by one
 			t.l.Add("alloc_batches_remeasured", 1)
@@ -437,8 +440,8 @@ func (t *tot) runGroup(g hostileGroup, col *collector, mine func(idx int) bool, 
 			if kind, detail := judge(m, a, c.MustErr); kind != "" {
 				t.report(g, st, c, kind, detail, m.errText, col)
 			}
-			if c.Ord%50021 == 7 {
-				t.l.Sample(map[string]any{"ord": c.Ord, "part": "totality", "group": g.Name, "request": clip(string(c.Req), 300), "manual_status": m.status, "auto_status": a.status, "error": clip(m.errText, 120), "must_error": c.MustErr})
+			if t.sample && i == 0 && (t.batches == 1 || t.batches == 40 || t.batches == 160) {
+				t.l.Sample(map[string]any{"ord": c.Ord, "part": "totality", "group": g.Name, "request": clip(string(c.Req), 300), "manual_status": m.status, "auto_status": a.status, "bind_error": m.hasErr, "must_error": c.MustErr})
 			}
 		}
 		cases = cases[:0]
